@@ -7,6 +7,11 @@ quotient, quadratic perturbation, Bregman distance, Moreau envelope,
 separable sums; depth <= 2) x spaces (rn, const-/array-weighted rn, 2-d rn,
 uniform_discr with cell volume != 1 and boundary nodes, power spaces,
 non-power products, the real field) x interior base points x directions.
+Genuinely linear functionals (<v, .>, multiples, sums, compositions with
+linear operators, ScalingFunctional on the field) are a stratum of their
+own, and three-step chains around an argument scaling (translation ->
+scaling, scaling -> translation, (f + c) -> scaling, perturbation ->
+scaling) are drawn on purpose (depth 3).
 
 Oracle (clauses):
   grad-fd     <grad f(x), d> in the space's own inner product against a
@@ -14,9 +19,12 @@ Oracle (clauses):
               Romberg extrapolation, second-order test on the raw ladder;
               the error estimate depends on function values only)
   derivative  f.derivative(x)(d) equals the same number
-  value       leaf functionals against the NumPy reference value; derived
-              functionals against the documented formula assembled from
-              the values of their parts
+  value       every node (leaf or derived) against the NumPy reference of
+              the documented expression, and derived nodes against the
+              documented formula assembled from the values of their parts
+  is-linear   a functional flagged is_linear must be linear in its values
+              (f(0) = 0, additivity, homogeneity): the arithmetic takes
+              short-cuts for functionals flagged linear
   lipschitz   finite grad_lipschitz bounds ||grad f(p)-grad f(q)||/||p-q||
               on random, close and small-magnitude pairs and on pairs along
               the dominant curvature direction (SVD of the finite-difference
@@ -69,6 +77,8 @@ TOLERANCES = {
                   'sum w|grad||d|)',
     'value': '|f(x)-ref| <= 512*eps*n*(1+|ref|+sum w(|x|+x^2)) (+ the '
              'change of the reference under a 32-ulp input perturbation)',
+    'is_linear': '|f(0)|, |f(x+z)-f(x)-f(z)|, |f(-1.5x)+1.5f(x)| <= 256*eps*n*'
+                 '(1+|f(x)|+|f(z)|+|f(-1.5x)|+magnitude of the parts)',
     'lipschitz': '||grad f(p)-grad f(q)|| <= L*||p-q||*(1+1e-9) + 256*eps*'
                  '(||grad f(p)||+||grad f(q)||+L*(||p||+||q||))',
     'numgrad': '|<NumericalGradient(f)(x),d> - D| <= 1e-5*(|g|+||grad||*||d||'
@@ -96,7 +106,9 @@ REQUIRED_STRATA = [
     'w:unit', 'w:const', 'w:array',
     'clause:grad-fd', 'clause:derivative', 'clause:value-ref',
     'clause:value-parts', 'clause:lipschitz', 'clause:lipschitz-curvature',
-    'clause:numgrad', 'clause:not-offered',
+    'clause:numgrad', 'clause:not-offered', 'clause:is-linear',
+    'chain:trans-scale', 'chain:scale-trans', 'chain:sum-scale',
+    'chain:pert-scale', 'linear:flagged', 'linear:part', 'cls:LinearForm',
     'rule:leftscal', 'rule:rightscal', 'rule:rightvec', 'rule:scalarsum',
     'rule:translated', 'rule:quadperturb', 'rule:sum', 'rule:comp',
     'rule:product', 'rule:quotient', 'rule:bregman', 'rule:moreau',
@@ -134,7 +146,7 @@ def _strategy(draw, tier):
     else:
         sd, fd = draw(Z.product_space_with_funcs('grad'))
     if pick != 'product':
-        depth = draw(st.sampled_from([0, 1, 1, 2]))
+        depth = draw(st.sampled_from([0, 1, 1, 2, 2, 3]))
         fd = draw(Z.func_descs(sd, 'grad', depth))
     n = Z.space_dim(sd)
     if not any(k in fd for k in ('f', 'parts')) and \
@@ -231,6 +243,17 @@ def radius_of(B, xf, xe):
         return min(radius_of(c, xf, xe) for c in B.children)
     if B.cls == 'moreau':
         return _moreau_radius(B, xf)
+    # rules that evaluate their part at a transformed point
+    if B.cls == 'translated':
+        return radius_of(B.children[0], xf - B.extra['tf'],
+                         xe - B.extra['t'])
+    if B.cls == 'rightscal':
+        sc = B.extra['s']
+        return radius_of(B.children[0], sc * xf, sc * xe) / abs(sc)
+    if B.cls == 'rightvec':
+        return radius_of(B.children[0], B.extra['vf'] * xf,
+                         B.extra['v'] * xe) / float(
+                             np.max(np.abs(B.extra['vf'])))
     if B.children:
         return min(radius_of(c, xf, xe) for c in B.children)
     return 0.0
@@ -300,9 +323,9 @@ def known_region(B):
             return 'C09-K2'
         if 'array' in r.get('huber', ''):
             return 'C09-K3'
-    # (linear f + c) * s: only the scaled node is wrong
-    if B.cls == 'rightscal' and B.children[0].f.is_linear and any(
-            b.region.get('qplin') for b in B.children[0].nodes()):
+    # (linear f + c) flagged linear: the flag itself and everything that
+    # takes the linear short-cut on top of it
+    if any(b.region.get('qplin') for b in B.nodes()):
         return 'C09-K7'
     return None
 
@@ -397,6 +420,12 @@ def _check_node(B, pts, top, fd, ctx, probe=True):
             strata.append('region:{}={}'.format(k, b.region[k]))
         if b.cls == 'comp':
             strata.append('op:' + b.extra['opkind'])
+    if top and fd.get('chain'):
+        strata.append('chain:' + fd['chain'])
+    if f.is_linear:
+        strata.append('linear:flagged')
+    if any(b.f.is_linear for b in B.nodes() if b is not B):
+        strata.append('linear:part')
     notes = {}
 
     def note(k, v=1):
@@ -422,16 +451,24 @@ def _check_node(B, pts, top, fd, ctx, probe=True):
         if not probe:
             return Outcome('excluded', strata=strata + ['excluded:' + kr])
 
-    # ---- the gradient operator ---------------------------------------------
     expect_nie = (B.cls == 'LpNorm' and ref.p not in (1.0, 2.0)) or \
         (B.cls == 'GroupL1Norm' and ref.p == float('inf'))
-    try:
-        grad = f.gradient
-    except NotImplementedError:
-        hit('not-offered')
-        if expect_nie or _no_gradient_expected(B):
+    if expect_nie:
+        # documented as not implemented: must raise (at the property or,
+        # for the point-wise inf-norm, at evaluation)
+        try:
+            f.gradient(X(xraw)[0])
+        except NotImplementedError:
+            hit('not-offered')
             return Outcome('rejected', strata=strata)
-        raise
+        raise Violation(sig('not-offered'),
+                        'gradient documented as not implemented evaluated')
+    if _no_gradient_expected(B):
+        try:
+            f.gradient
+        except NotImplementedError:
+            hit('not-offered')
+            return Outcome('rejected', strata=strata)
 
     # ---- base point ---------------------------------------------------------
     center = ref.center() if ref is not None else None
@@ -472,15 +509,18 @@ def _check_node(B, pts, top, fd, ctx, probe=True):
         if np.isnan(fx):
             raise Violation(sig('value'), 'f(x) is nan at x={}'.format(
                 xf.tolist()))
-        if ref is not None and not B.children:
+        # every node (leaf or derived) against the independent reference
+        # of the *documented* expression
+        if ref is not None and ref.value(xf) is not None:
             rv = ref.value(xf)
             big = 1e30 if f32 else 1e300
             if not np.isfinite(fx) and np.isfinite(rv) and abs(rv) > big:
                 return Outcome('trivial',
                                strata=strata + ['trivial:overflow'])
             t = 512 * eps * max(n, 1) * (
-                1.0 + abs(rv) + float(np.sum(geo.w * (np.abs(xf) +
-                                                      xf * xf))))
+                1.0 + abs(rv) + (_parts_scale(B, xe, xf) if B.children
+                                 else float(np.sum(geo.w * (np.abs(xf) +
+                                                            xf * xf)))))
             dx = 32 * eps * (np.abs(xf) + 1.0)
             r1, r2 = ref.value(xf + dx), ref.value(xf - dx)
             if np.isfinite(r1) and np.isfinite(r2) and np.isfinite(rv):
@@ -503,6 +543,50 @@ def _check_node(B, pts, top, fd, ctx, probe=True):
                     'f(x) = {!r} but the documented formula assembled from '
                     'the parts gives {!r} (diff {:.3g}, tol {:.3g}) x={}'
                     ''.format(fx, av, fx - av, t, xf.tolist()))
+
+    # ---- (3b) the linearity flag ----------------------------------------------
+    if f.is_linear and not no_call:
+        hit('is-linear')
+        ze_, zf_ = X(zraw if in_domain(B, zraw) else 0.5 * xf)
+        a_ = -1.5
+        v0 = value_at(X(np.zeros(n))[0])
+        vz = value_at(ze_)
+        vs_ = value_at(X(xf + zf_)[0])
+        va = value_at(X(a_ * xf)[0])
+        t = 256 * eps * max(n, 1) * (1.0 + abs(fx) + abs(vz) + abs(va) +
+                                     _parts_scale(B, xe, xf))
+        bad = None
+        if abs(v0) > t:
+            bad = 'f(0) = {!r}'.format(v0)
+        elif abs(vs_ - (fx + vz)) > t:
+            bad = 'f(x+z) = {!r} but f(x)+f(z) = {!r}'.format(vs_, fx + vz)
+        elif abs(va - a_ * fx) > t:
+            bad = 'f({}x) = {!r} but {}f(x) = {!r}'.format(a_, va, a_,
+                                                          a_ * fx)
+        if bad is not None:
+            raise Violation(
+                sig('is-linear'),
+                'functional flagged is_linear is not linear: {} (tol {:.3g})'
+                ' x={} z={}'.format(bad, t, xf.tolist(), zf_.tolist()))
+
+    # ---- the gradient operator ---------------------------------------------
+    k8 = sk == 'field' and any(b.cls == 'translated' for b in B.nodes())
+    if k8 and not probe:
+        strata.append('excluded:C09-K8')
+        return Outcome('ok', strata=strata, nontrivial=False, notes=notes)
+    try:
+        grad = f.gradient
+    except NotImplementedError:
+        hit('not-offered')
+        if expect_nie or _no_gradient_expected(B):
+            return Outcome('rejected', strata=strata)
+        raise
+    except TypeError as e:
+        if k8:
+            raise Violation(sig('gradient-crash') + ',field-translated',
+                            'gradient of a translated functional on a field '
+                            'raises TypeError: ' + str(e)[:120])
+        raise
 
     # ---- (1) gradient against the central-difference ladder ----------------
     if expect_nie:
@@ -575,7 +659,9 @@ def _check_node(B, pts, top, fd, ctx, probe=True):
 
     # ---- (2) derivative(x)(d) ----------------------------------------------
     D = None
-    if sk == 'field' and not probe:
+    if sk == 'field' and (not probe or not top):
+        # (probed at the top node only, so that parts of field expressions
+        # do not mask what happens above them)
         strata.append('excluded:C09-K4')
     else:
         try:
